@@ -439,13 +439,15 @@ theorem C03_set_writes_members_only (st : Store) (s : Nat) (k : Nat) (v : Int) (
   simp only [h, if_true]
   exact ⟨by simp [Agent.setAttr, Agent.attr], fun k' hk => setAttr_attr_other a k k' v hk, rfl, rfl⟩
 
-/-- **The in-place and the copying code path build the same set.**  In the code the copying form ends in
-    `AgentSet(result, random)` and the in-place form in `self._update(result)` (`shuffle`: `self._agents.data = {…}`): both push
-    the result through the same dict comprehension, i.e. through the constructor's de-duplication; the early return of
-    `select` is `self` versus `copy.copy(self)` (= `__setstate__` → `_update(list(keys))`).  On every result the methods
-    build from a duplicate-free set that de-duplication is the identity — so the list the model stores for either flag
-    (`Store.put`) is exactly what either path of the code builds, order included. -/
-theorem C03_both_code_paths_build_the_same_set (st : Store) (h : st.WF) (s : Nat) :
+/-- **Re-building a result is the identity.**  In the code the copying form of `select` / `sort` / `shuffle` ends in
+    `AgentSet(result, random)`, the in-place form in `self._update(result)` (`shuffle`: `self._agents.data = {…}`), the early
+    return of `select` in `self` versus `copy.copy(self)`, `groupby(result_type="agentset")` in one constructor call per group:
+    each pushes its result through a dict comprehension, i.e. through a de-duplication.  On every result these methods build
+    from a duplicate-free set that de-duplication changes nothing, order included — which is why the model may store the
+    result list as it is (`Store.put`) for either flag.
+    (Review 3, M16: the former name "both code paths build the same set" claimed more — the two paths themselves are not in
+    the model; that they agree on the real code is what the correspondence tie checks, `inplace` being part of every op.) -/
+theorem C03_rebuilding_a_result_is_the_identity (st : Store) (h : st.WF) (s : Nat) :
     dedup (st.get s) = st.get s ∧
     (∀ pred ty am, dedup (selectIds st (st.get s) pred ty am) = selectIds st (st.get s) pred ty am) ∧
     (∀ (key : Nat → Int) asc, dedup (sortL key asc (st.get s)) = sortL key asc (st.get s)) ∧
